@@ -1,6 +1,7 @@
 import IbModel.Model.Program
 import IbModel.Model.CombinerCore
 import IbModel.Proofs.AList
+import IbModel.Proofs.ValOrder
 /-!
 # Closed forms of the `Val`-level `count` and `sum` combiners (non-vacuity of `LawfulCombiner` for C05)
 -/
@@ -138,41 +139,7 @@ theorem lawful_optCombiner (p : Val → Val → Val) (hp : ∀ a b d, p (p a b) 
         rw [foldl_assoc_shift p hp]
   · intro xs; rfl
 
-/-! ## `Val.le` is a total preorder, hence `min`/`max` (ties → the later element) are associative -/
-
-theorem Val.le_iff (a b : Val) :
-    Val.le a b = true ↔ a.toInt < b.toInt ∨ (a.toInt = b.toInt ∧ a.enc ≤ b.enc) := by
-  unfold Val.le
-  simp only []
-  by_cases h1 : a.toInt < b.toInt
-  · simp [h1]
-  · by_cases h2 : b.toInt < a.toInt
-    · simp only [h1, h2, ↓reduceIte, Bool.false_eq_true, false_iff]
-      rintro (h | ⟨h, _⟩) <;> omega
-    · have : a.toInt = b.toInt := by omega
-      simp [this]
-
-theorem Val.le_total (a b : Val) : Val.le a b = true ∨ Val.le b a = true := by
-  rw [Val.le_iff, Val.le_iff]
-  rcases String.le_total a.enc b.enc with h | h
-  · by_cases h1 : a.toInt < b.toInt
-    · exact Or.inl (Or.inl h1)
-    · by_cases h2 : b.toInt < a.toInt
-      · exact Or.inr (Or.inl h2)
-      · exact Or.inl (Or.inr ⟨by omega, h⟩)
-  · by_cases h1 : a.toInt < b.toInt
-    · exact Or.inl (Or.inl h1)
-    · by_cases h2 : b.toInt < a.toInt
-      · exact Or.inr (Or.inl h2)
-      · exact Or.inr (Or.inr ⟨by omega, h⟩)
-
-theorem Val.le_trans {a b d : Val} (h1 : Val.le a b = true) (h2 : Val.le b d = true) : Val.le a d = true := by
-  rw [Val.le_iff] at *
-  rcases h1 with h1 | ⟨h1, e1⟩ <;> rcases h2 with h2 | ⟨h2, e2⟩
-  · exact Or.inl (by omega)
-  · exact Or.inl (by omega)
-  · exact Or.inl (by omega)
-  · exact Or.inr ⟨by omega, String.le_trans e1 e2⟩
+/-! ## `Val.le` is a total order (`Proofs/ValOrder.lean`), hence `min`/`max` (ties → the later element) are associative -/
 
 theorem pickMin_eq (cur v : Val) : pickMin cur v = if Val.le v cur then v else cur := by
   unfold pickMin Val.lt
